@@ -337,24 +337,24 @@ func (cw *CountingWindow) getKey(data any) string {
 		return "__global__"
 	}
 	v := reflect.ValueOf(data)
-	keyParts := make([]string, 0, len(keys))
-	for _, k := range keys {
-		var part string
+	var b strings.Builder
+	for i, k := range keys {
+		var val any
 		switch v.Kind() {
 		case reflect.Map:
 			if v.Type().Key().Kind() == reflect.String {
 				mv := v.MapIndex(reflect.ValueOf(k))
 				if mv.IsValid() {
-					part = cast.ToString(mv.Interface())
+					val = mv.Interface()
 				}
 			}
 		case reflect.Struct:
 			f := v.FieldByName(k)
 			if f.IsValid() {
-				part = cast.ToString(f.Interface())
+				val = f.Interface()
 			}
 		}
-		keyParts = append(keyParts, part)
+		appendGroupKeyPart(&b, i == 0, cast.ToString(val), val == nil)
 	}
-	return strings.Join(keyParts, "|")
+	return b.String()
 }
